@@ -209,6 +209,7 @@ let () =
             let shadow = has_shadow doc in
             let fits = fits_request r in
             if not fits then bump "server_beyond_nesting_limit";
+            if indom && not (variant_b (rfc_write hf r) doc) then bump "server_variant_without_comp";
             bump (if indom then "server_conformant_variant"
                   else if not fits then "server_variant_beyond_limit" else "server_NOT_A_VARIANT");
             if indom && shadow then bump "server_variant_with_attribute_lookalike";
